@@ -29,7 +29,7 @@ ASSUMPTIONS = [
 ]
 EXHAUSTIVE = {"quick": "all 54 240 strings of length <= 4 over the alphabet", "thorough": "all 813 615 strings of length <= 5 over the alphabet"}
 REQUIRED = ["values_checked", "class_literal_int", "class_literal_float", "class_nonliteral", "class_grey", "api_uwi_values_checked",
-            "curve_values_checked", "section_Well", "section_Parameter", "section_Version", "section_custom", "steering_item_values_checked", "files_with_values_equal_to_their_null"]
+            "curve_values_checked", "section_Well", "section_Parameter", "section_Version", "section_custom", "steering_item_values_checked", "files_with_values_equal_to_their_null", "files_declaring_version_1.2", "files_declaring_version_3.0"]
 SOFT_DEADLINE = {"quick": 90, "thorough": 1500}
 LEVEL_TEXT = ("Exhaustive enumeration of the short-string space against an independent literal recogniser, observed at the API of "
               "lasio.read; longer strings are sampled.")
@@ -161,6 +161,10 @@ def grid(tier):
     for mn, val in STEERING_VALUES:
         yield {"steering": [mn, val]}
     # header values numerically equal (or close) to the file's own NULL, for several NULLs: a value is a literal like any other
+    for vers in ("1.2", "2.1", "3.0"):                # the declared version must not change what counts as a number
+        for sec in SECTION_KINDS:
+            for mn in ("neutral", "API"):
+                yield {"strings": [s for s in LONG if s.isascii()], "section": sec, "mn": mn, "vers": vers}
     for null, spellings in NULL_EQUAL.items():
         for sec in SECTION_KINDS:
             for mn in ("neutral", "API"):
@@ -198,7 +202,7 @@ def random_case(rng, tier):
         else:
             s = "".join(rng.choice("0123456789_") for _ in range(rng.randint(2, 8)))
         out.append(s.strip())
-    c = {"strings": out, "section": rng.choice(SECTION_KINDS), "mn": rng.choice(MN_KINDS)}
+    c = {"strings": out, "section": rng.choice(SECTION_KINDS), "mn": rng.choice(MN_KINDS), "vers": rng.choice(["2.0", "2.0", "1.2", "2.1", "3.0"])}
     if rng.random() < 0.2:
         c["null"] = rng.choice(list(NULL_EQUAL))
         c["strings"] = out[:len(out) // 2] + NULL_EQUAL[c["null"]]
@@ -233,16 +237,21 @@ def run_case(case, ctx):
     if sec == "Curves":
         strings = [s for s in strings if ".." not in s and ":" not in s]
     lines, used = [], []
+    vers = case.get("vers", "2.0")
+    swapped = vers == "1.2" and sec == "Well"          # LAS 1.2 ~Well lines are 'MNEM.UNIT DESCRIPTION : VALUE'
     for i, s in enumerate(strings):
         mn = ("K%d" % i) if mnk == "neutral" else mnk
         if ":" in s:
-            if sec == "Curves" or mnk != "neutral":
+            if sec == "Curves" or mnk != "neutral" or swapped:
                 continue
             lines.append("K%d : %s" % (i, s))
+        elif swapped:
+            lines.append("%s.  d%d : %s" % (mn, i, s))
         else:
             lines.append("%s.  %s : d%d" % (mn, s, i))
         used.append((mn, s))
-    head = ["~Version", "VERS. 2.0 : v", "WRAP. NO : w"]
+    head = ["~Version", "VERS. %s : v" % vers, "WRAP. NO : w"]
+    ctx.count("files_declaring_version_" + vers)
     well = ["~Well", "STRT.M 1 : s", "STOP.M 2 : s", "STEP.M 1 : s", "NULL. %s : n" % case.get("null", "-999.25")]
     if case.get("null"):
         ctx.count("files_with_values_equal_to_their_null")
